@@ -144,6 +144,19 @@ def _exc(tc, cls):
     return KeyboardInterrupt()
 
 
+def _flush_testtools_log_observer(_runtest):
+    """Empty testtools' module-level error observer between cases (private name: tolerate a rename)."""
+    ob = getattr(_runtest, "_log_observer", None)
+    if ob is not None and hasattr(ob, "flushErrors"):
+        ob.flushErrors()
+    else:
+        try:
+            from testtools.twistedsupport import flush_logged_errors
+            flush_logged_errors()
+        except Exception:
+            pass
+
+
 def drive(case):
     import testtools
     from testtools.testresult.doubles import ExtendedTestResult
@@ -155,7 +168,7 @@ def drive(case):
     from vcheck.vreactor import VReactor
     _begin()
     gc.collect()
-    _runtest._log_observer.flushErrors()
+    _flush_testtools_log_observer(_runtest)
     del _SINK[:]
     real = bool(case.get("real"))
     if real:
@@ -244,7 +257,7 @@ def drive(case):
         obs = {"events": events, "stop": bool(res.shouldStop), "raised": raised, "stages": stage_log,
                "unrun": left[0] - left[1], "pending": len(reactor.getDelayedCalls()),
                "observers_same": len(before) == len(after) and all(a is b or a == b for a, b in zip(before, after)),
-               "cleanups_left": len(tc._cleanups)}
+               "cleanups_left": len(getattr(tc, "_cleanups", ()))}
         return obs
     finally:
         for ob in list(globalLogPublisher._observers):
@@ -254,7 +267,7 @@ def drive(case):
             globalLogPublisher.addObserver(_SINK.append)
         tc = res = None
         gc.collect()
-        _runtest._log_observer.flushErrors()
+        _flush_testtools_log_observer(_runtest)
         del _SINK[:]
 
 
